@@ -852,11 +852,13 @@ fn parent(monitor: &'static dyn Monitor, args: &Args) -> i32 {
         args.tier.name(),
         args.seed as i64
     );
-    for (n, c) in evidence["coverage"]["observed"]
-        .as_object()
-        .into_iter()
-        .flatten()
-    {
+    let observed = evidence["coverage"]["observed"].as_object();
+    let total = observed.map(|o| o.len()).unwrap_or(0);
+    for (i, (n, c)) in observed.into_iter().flatten().enumerate() {
+        if i >= 40 {
+            println!("[{id}]   ... {} more observation counters in {}", total - 40, ev_path.display());
+            break;
+        }
         println!("[{id}]   observed {n} = {c}");
     }
     for l in &known_lines {
